@@ -177,10 +177,10 @@ impl FunctionExpression for FlattenFn {
     fn type_def(&self, state: &state::TypeState) -> TypeDef {
         let td = self.value.type_def(state);
 
-        if td.is_array() {
-            TypeDef::array(Collection::any())
-        } else {
-            TypeDef::object(Collection::any())
+        match (td.contains_array(), td.contains_object()) {
+            (true, true) => TypeDef::array(Collection::any()).or_object(Collection::any()),
+            (true, false) => TypeDef::array(Collection::any()),
+            (false, _) => TypeDef::object(Collection::any()),
         }
     }
 }
